@@ -13,27 +13,34 @@ INV15 = "TypeOK C15_Prefix C15_RoundTrip C15_NodeLives"
 INV16 = "TypeOK C16_NoPanic C16_OnlyAddressed C16_ErrOnlyOnBad C16_AllOrError"
 
 
-def cfg(mode, tp="MCTargets", sp="MCSenders", ty="MCTypes", dp="MCData", maxb=2, hidx="HIdxFull", hmax=1, off=None, export=True, invs=None):
+def cfg(mode, tp="MCTargets", sp="MCSenders", ty="MCTypes", dp="MCData", maxb=2, hidx="HIdxFull", hmax=1, off=None, export=True, invs=None,
+        hty="HTy", htg="HTg", hsd="HSd", hdat="HDat", henvs=1):
     fx = " ".join("%s = %s" % (f, "FALSE" if f == off else "TRUE") for f in FIXES)
     return ("CONSTANTS Mode = \"%s\" TargetPool <- %s SenderPool <- %s TypePool <- %s DataPool <- %s MaxBatch = %d\n"
-            " HTypeTabs <- HTy HTargetTabs <- HTg HSenderTabs <- HSd HIdx <- %s HData <- HDat HMaxMsgs = %d\n"
+            " HTypeTabs <- %s HTargetTabs <- %s HSenderTabs <- %s HIdx <- %s HData <- %s HMaxMsgs = %d HMaxEnvs = %d\n"
             " %s Export = %s\nSPECIFICATION Spec\nINVARIANTS %s ExportCase\n" % (
-                mode, tp, sp, ty, dp, maxb, hidx, hmax, fx, "TRUE" if export else "FALSE",
+                mode, tp, sp, ty, dp, maxb, hty, htg, hsd, hidx, hdat, hmax, henvs, fx, "TRUE" if export else "FALSE",
                 invs or (INV15 if mode == "roundtrip" else INV16)))
 
 
 PLAN = {
     "C15": {
-        "quick": [("rt_len2_full", dict(mode="roundtrip", maxb=2))],
+        "quick": [("rt_len2_full", dict(mode="roundtrip", maxb=2)),
+                  ("rt_len3_small", dict(mode="roundtrip", maxb=3, tp="MCTargets2", sp="MCSenders1", ty="MCTypes1", dp="MCData1"))],
         "thorough": [("rt_len2_full", dict(mode="roundtrip", maxb=2)),
                      ("rt_len3_collide", dict(mode="roundtrip", maxb=3, sp="MCSendersC", dp="MCData1")),
                      ("rt_len4_small", dict(mode="roundtrip", maxb=4, tp="MCTargetsC", sp="MCSenders1", ty="MCTypes1", dp="MCData1"))],
     },
     "C16": {
         "quick": [("hostile_1msg_full", dict(mode="hostile", hidx="HIdxFull", hmax=1)),
-                  ("hostile_2msg_small", dict(mode="hostile", hidx="HIdxTiny", hmax=2))],
+                  ("hostile_2msg_small", dict(mode="hostile", hidx="HIdxTiny", hmax=2)),
+                  ("hostile_2envs", dict(mode="hostile", hty="HTy2", htg="HTg1", hsd="HSd0", hidx="HIdx01", hdat="HDat1", hmax=1, henvs=2)),
+                  ("hostile_writer_target", dict(mode="hostile", htg="HTgW", hsd="HSd0", hidx="HIdx01", hmax=1))],
         "thorough": [("hostile_1msg_full", dict(mode="hostile", hidx="HIdxFull", hmax=1)),
-                     ("hostile_2msg", dict(mode="hostile", hidx="HIdxSmall", hmax=2))],
+                     ("hostile_2msg", dict(mode="hostile", hidx="HIdxSmall", hmax=2)),
+                     ("hostile_2envs", dict(mode="hostile", hty="HTy2", htg="HTg1", hsd="HSd0", hidx="HIdxTiny", hmax=2, henvs=2, hdat="HDat1")),
+                     ("hostile_3envs", dict(mode="hostile", hty="HTy2", htg="HTg1", hsd="HSd0", hidx="HIdx01", hdat="HDat1", hmax=1, henvs=3)),
+                     ("hostile_writer_target", dict(mode="hostile", htg="HTgW", hsd="HSd0", hidx="HIdxSmall", hmax=2))],
     },
 }
 REGRESSION = {
@@ -66,9 +73,9 @@ def run(prop, tier, replay):
             rf = json.load(open(replay))
             p = sc.path("one.ndjson")
             open(p, "w").write(json.dumps(rf["case"]) + "\n")
-            pr = vlib.run([binp, "-cases", p], ok_codes=(0, 1))
-            print(pr.stdout.strip()[:2000])
-            return pr.returncode
+            pr = vlib.run([binp, "-cases", p], ok_codes=None)
+            print((pr.stdout.strip() or pr.stderr.strip())[:2000])
+            return 0 if pr.returncode == 0 else 1
         v = vlib.Verdict(prop, tier)
         cov = v.coverage
         cov.update({"cases": 0, "exhaustive": True, "instances": []})
@@ -89,7 +96,20 @@ def run(prop, tier, replay):
             with open(cp, "w") as f:
                 for c in cases:
                     f.write(json.dumps(c) + "\n")
-            pr = vlib.run([binp, "-cases", cp], ok_codes=(0, 1), timeout=3000)
+            prog = sc.path("progress.txt")
+            pr = vlib.run([binp, "-cases", cp, "-progress", prog], ok_codes=None, timeout=3000)
+            if pr.returncode not in (0, 1):
+                # the process that plays the node died: a panic escaped into a goroutine nothing recovers
+                k = int(open(prog).read().strip() or "0")
+                rf = {"case": cases[k], "instance": tag, "what": "the node process died", "stderr": pr.stderr[-1500:]}
+                tmp = sc.path("rf.ndjson")
+                open(tmp, "w").write(json.dumps(cases[k]) + "\n")
+                p2 = vlib.run([binp, "-cases", tmp], ok_codes=None)
+                if p2.returncode in (0, 1):
+                    raise vlib.Broken("wiretable died (rc=%d) near case %d and the case alone does not reproduce it:\n%s" % (pr.returncode, k, pr.stderr[-1500:]))
+                first = next((l for l in pr.stderr.splitlines() if l.startswith("panic:") or l.startswith("fatal error:")), pr.stderr.strip()[:200])
+                v.violation(rf, "the node process died while handling case %d of %s: %s" % (k, tag, first))
+                break
             rep = json.loads(pr.stdout)
             cov["cases"] += rep["cases"]
             cov["traces_validated_against_impl"] += rep["cases"]
